@@ -138,3 +138,13 @@ claim('C07',
       'by a proved lemma on the probe length.',
       'symbolic execution of the real Python with an affine stub WCS + SMT (z3 NRA) with proved intermediate lemmas',
       'DESIGN.md section 5 C07')
+claim('C12',
+      'Bounded symbolic check of the FITS region-table serialiser and parser through the real astropy QTable: all '
+      'coordinates, sizes, vertices are symbolic reals and component numbers symbolic integers; serialise -> parse returns '
+      'the same classes with identical geometry (exactly, no formatting involved), the exclude flag, given components '
+      'preserved and fresh ones distinct, unsupported / sky members skipped with a warning without disturbing the other '
+      'rows, inputs unmodified, parse->serialise->parse fixed point; reader notations box / rectangle / rotrectangle.',
+      'File layer (writeto / fits.open / QTable.read) outside (binary astropy I/O, see C14); lists <= 4 (quick) / 5; one '
+      'open known finding (zero-padded polygon vertices), two defects repaired by fix: commits.',
+      'symbolic execution of the real Python through astropy QTable with object payloads + SMT (z3)',
+      'DESIGN.md section 5 C12')
